@@ -5,7 +5,7 @@ from odata_query import ast
 from odata_query.roundtrip import AstToODataVisitor
 from odata_query.grammar import ODataLexer, ODataParser
 
-PROP_MODS = ["ODataVerif.Tie.PrinterPrecedence", "ODataVerif.Tie.ParserTables", "ODataVerif.Props.C13", "ODataVerif.Props.C13Roundtrip"]
+PROP_MODS = ["ODataVerif.Tie.PrinterPrecedence", "ODataVerif.Tie.ParserTables", "ODataVerif.Props.C13", "ODataVerif.Props.C13Roundtrip", "ODataVerif.Props.C13Text", "ODataVerif.Props.C10Image"]
 
 def real_render(node):
     try:
@@ -72,7 +72,7 @@ def run(ctx):
     g = gens_ast.AstGen(rng)
     for _ in range(8000 if ctx.thorough else 1500):
         nodes.append(g.gen(rng.randint(1, 7)))
-    for f in gens.VALID_FILTERS:
+    for f in gens.VALID_FILTERS + gens.QUOTED_LITERAL_FILTERS:
         try:
             nodes.append(impl.real_parse_ast(f))
         except Exception:  # noqa
